@@ -18,6 +18,7 @@ PROP = {
     "technique": "runtime monitoring: exact winding-number reference oracle over generated executions (plain, HI_PRECISION, portable builds)",
     "rule": ("scenes from gp_scene (7 shape classes x 9 magnitude classes 2^5..2^61, exact general-position filter), "
              "cycled over 4 clip types x 4 fill rules x PreserveCollinear x ReverseSolution, builds plain+hp(+portable); "
+             "six loading routes (direct in two orders, path by path in reverse, one / two ReuseableDataContainer64 objects, container after direct adds); "
              "a case is non-trivial iff the inputs' edges properly cross at least once, at least 20 sample points cleared "
              "the tol+1 margin and were judged, and the scene is not vacuous (tolerance < feature/200); distinct by hash "
              "of inputs+configuration"),
